@@ -111,7 +111,33 @@ FOCUS_TEMPLATES = [
     ("let $d := parse-xml(concat('<r>', string-join(%s ! concat('<i k=\"', ., '\">x</i>')), '</r>')) "
      "return sort($d//i, (), function($n) { $n/@k }) ! string(@k)",
      lambda q: [['str', v] for v in sorted(str(x) for x in q)], 'sort-keys-atomized'),
+    # fn:sort does not modify its operand: a partial application with the sequence fixed, called with two key functions
+    # (the second call must start from the original order: ties keep it)
+    ("let $s := sort(%s, (), ?) return ($s(function($x) { -$x }), 100, $s(function($x) { 0 }), 100, $s(function($x) { $x mod 2 }))",
+     lambda q: _ints(sorted(q, key=lambda x: -x)) + [['int', '100']] + _ints(q) + [['int', '100']] + _ints(sorted(q, key=lambda x: x % 2)),
+     'sort-operand-unchanged'),
+    ("let $a := [%s] return (sort($a(1), (), function($x) { -$x }), 100, $a(1), 100, sort($a?1), 100, $a?1)",
+     lambda q: _ints(sorted(q, key=lambda x: -x)) + [['int', '100']] + _ints(q) + [['int', '100']] + _ints(sorted(q)) + [['int', '100']] + _ints(q),
+     'sort-operand-unchanged'),
+    # named references to functions of arity one that depend on the focus bind it where they are created
+    ("let $d := parse-xml('<r><i xml:lang=\"en\"/><i xml:lang=\"it\"/><i/></r>') return (let $f := $d/r/i[1]/lang#1 "
+     "return for $k in %s return $d/r/i[($k mod 3) + 1]/$f('en'))", lambda q: [['bool', True] for _ in q], 'focus-dependent-function-reference'),
+    # placeholders at every position of the folds (also under the XPath 3.0 parser, whose placeholder is another token)
+    ("fold-left(%s, ?, function($a, $b) { $a + $b })(0)", lambda q: [['int', str(sum(q))]], 'fold-placeholder', 'v30'),
+    ("fold-right(%s, ?, function($a, $b) { $a + $b })(1)", lambda q: [['int', str(sum(q) + 1)]], 'fold-placeholder', 'v30'),
+    ("fold-left(?, ?, ?)(%s, 0, function($a, $b) { $a * 2 + $b })", lambda q: [['int', str(_fl(q))]], 'fold-placeholder', 'v30'),
+    ("fold-left(%s, 0, ?)(function($a, $b) { $a + $b }), fold-right(?, 0, function($a, $b) { $a + $b })(%s)",
+     lambda q: [['int', str(sum(q))], ['int', str(sum(q))]], 'fold-placeholder', 'v30'),
+    ("for-each(%s, ?)(function($x) { $x + 1 }), filter(?, function($x) { $x gt 4 })(%s)",
+     lambda q: _ints([x + 1 for x in q]) + _ints([x for x in q if x > 4]), 'fold-placeholder', 'v30'),
 ]
+
+
+def _fl(q):
+    acc = 0
+    for x in q:
+        acc = acc * 2 + x
+    return acc
 
 
 def _ints(q):
@@ -246,18 +272,24 @@ def run_case(case, world):
         elif kind == 'focusref':
             tmpl, expect = FOCUS_TEMPLATES[op['t'] % len(FOCUS_TEMPLATES)][:2]
             tfeat = (FOCUS_TEMPLATES[op['t'] % len(FOCUS_TEMPLATES)] + ('focus-dependent-function-reference',))[2]
-            text = tmpl % ('(' + ', '.join(str(x) for x in op['seq']) + ')')
+            seqtext = '(' + ', '.join(str(x) for x in op['seq']) + ')'
+            text = tmpl.replace('%s', seqtext)
             expected = expect(op['seq'])
+            tparser = XPath31Parser
+            if 'v30' in FOCUS_TEMPLATES[op['t'] % len(FOCUS_TEMPLATES)][2:] and sum(op['seq']) % 2:
+                from elementpath.xpath30 import XPath30Parser
+                tparser = XPath30Parser
+                text = text + ' (: 3.0 :)'
             stats['programs'] += 1
             world.event(('focusref', idx, text))
             try:
                 outs = []
                 if op.get('mode') == 'selector-twice':
-                    s_ = elementpath.Selector(text, parser=XPath31Parser)
+                    s_ = elementpath.Selector(text, parser=tparser)
                     outs.append(_engine_items(s_.select(None, item=1)))
                     outs.append(_engine_items(s_.select(None, item=1)))
                 else:
-                    outs.append(_engine_items(elementpath.select(None, text, parser=XPath31Parser, item=1)))
+                    outs.append(_engine_items(elementpath.select(None, text, parser=tparser, item=1)))
                 for got in outs:
                     if got != expected:
                         violate('MODEL_MISMATCH', 'focusref', '%s gave %r, expected %r' % (text, got, expected), set(),
@@ -265,9 +297,9 @@ def run_case(case, world):
                         break
             except Exception as e:
                 world.event(('error', idx, canon_exc(e)))
-                if is_ep_error(e):
-                    violate('MODEL_MISMATCH', 'focusref', '%s raised %r, expected %r' % (text, canon_exc(e), expected), set(),
-                            [tfeat, 'engine-error'])
+                # the template has a value: no value at all is a mismatch whatever is raised
+                violate('MODEL_MISMATCH', 'focusref', '%s raised %r, expected %r' % (text, canon_exc(e), expected), set(),
+                        [tfeat, 'engine-error'] + ([] if is_ep_error(e) else ['non-ep-exception']))
             shapes.append('focusref')
         elif kind == 'make':
             text = ML.render(op['ast'])
